@@ -493,3 +493,32 @@ def gen_gentest_decls(rng, tier):
     for d in b.decls:
         d.no_run = True
     return b.decls
+
+
+def gen_c12_decls(rng, tier):
+    """float declarations asking for Eq / Ord: refused unless `finite` is among the validators,
+    whatever else is declared (bounds, predicate, custom validation, sanitizers)"""
+    b = Builder("e")
+    D = derive_block
+    vsets = [("none", None), ("lower", [[tid("greater_or_equal"), EQ, lf("0.0")]]), ("upper", [[tid("less"), EQ, lf("5.0")]]),
+             ("both", [[tid("greater"), EQ, lf("-1.0")], [tid("less_or_equal"), EQ, lf("5.0")]]),
+             ("predicate", [[tid("predicate"), EQ, tfn(0, "p", "p")]]),
+             ("custom", [[tid("with"), EQ, tfn(0, "p", "c")], [tid("error"), EQ, tpath("CErr")]]),
+             ("finite", [[tid("finite")]]), ("finite_lower", [[tid("finite")], [tid("greater_or_equal"), EQ, lf("0.0")]]),
+             ("upper_finite", [[tid("less"), EQ, lf("5.0")], [tid("finite")]]),
+             ("finite_predicate", [[tid("predicate"), EQ, tfn(0, "p", "p")], [tid("finite")]])]
+    dsets = [["Debug", "PartialEq", "Eq"], ["Debug", "PartialEq", "Eq", "PartialOrd", "Ord"], ["Debug", "PartialEq", "PartialOrd", "Eq", "Ord", "Clone", "Copy"]]
+    for ty in ("f32", "f64"):
+        for vname, vs in vsets:
+            for ds in dsets:
+                for san in (False, True):
+                    for cf in (False, True):
+                        if cf and (vname in ("predicate", "custom", "finite_predicate") or san):
+                            continue
+                        blocks = ([[tid("const_fn")]] if cf else []) + ([block("sanitize", [[tid("with"), EQ, tfn(0, "p", "s")]])] if san else [])
+                        if vs:
+                            blocks.append(block("validate", vs))
+                        blocks.append(D(ds))
+                        d = b.add(ty, blocks, "ok" if "finite" in vname else "traits:float_needs_finite")
+                        d.has_finite = "finite" in vname
+    return b.decls
